@@ -578,9 +578,7 @@ func oracle(c Case) (evid.Info, error) {
 	if !reflect.DeepEqual(r0.Params, r1.Params) {
 		return info, fmt.Errorf("emitted parameters differ:\n  Q:     %s -> %v\n  rho Q: %s -> %v", c.Query, r0.Params, text1, r1.Params)
 	}
-	if excludeOrderByHazard() {
-		// KNOWN open finding: not judged
-	} else if err := orderByHazards(r1.SQL); err != nil {
+	if err := orderByHazards(r1.SQL); err != nil {
 		return info, fmt.Errorf("%v\n  rho Q:      %s\n  SQL(rho Q): %s", err, text1, r1.SQL)
 	}
 	info.Classes = append(info.Classes, "translated")
@@ -629,7 +627,23 @@ func openFlags() sepFlags {
 	return sepFlags{strict: shadowExcluded(), perPart: evid.R.KnownOpen(findingLiveness)}
 }
 
-func excludeOrderByHazard() bool { return evid.R.KnownOpen(findingOrderBy) }
+// avoidOrderByHazard: while the ORDER BY finding is listed as open, result columns of a query whose final
+// projection is ordered get neither reserved words nor names that differ only by case.
+func avoidOrderByHazard(an *analysis, names []string) (changed bool) {
+	if !evid.R.KnownOpen(findingOrderBy) || an.returnEnv == nil || !an.feats["order-by"] {
+		return false
+	}
+	seen := map[string]bool{}
+	for _, c := range an.returnEnv.classes() {
+		low := strings.ToLower(names[c])
+		if pgReserved[low] || seen[low] {
+			names[c] = fmt.Sprintf("r%d_%s", c, an.classes[c].Orig)
+			changed = true
+		}
+		seen[strings.ToLower(names[c])] = true
+	}
+	return changed
+}
 
 // ---- generators ----
 
@@ -739,6 +753,9 @@ func genNames(t *rapid.T, an *analysis) []string {
 	if !an.admissible(names, f) {
 		repair(an, names, f)
 	}
+	if avoidOrderByHazard(an, names) {
+		evid.R.Excluded("renaming")
+	}
 	return names
 }
 
@@ -835,6 +852,9 @@ func sweepNames(an *analysis, mode int) []string {
 	repair(an, names, f)
 	if !an.admissible(names, f) {
 		repair(an, names, f)
+	}
+	if avoidOrderByHazard(an, names) {
+		evid.R.Excluded("sweep")
 	}
 	return names
 }
